@@ -58,9 +58,11 @@ def decode(data):
 def in_domain(x, err):
     if not (math.isfinite(x) and math.isfinite(err)):
         return False
-    if not (1e-300 <= err):
+    if not (err > 0):
         return False
     if x != 0:
+        if not (1e-300 <= err):
+            return False
         if not (1e-300 <= abs(x) <= 1e300):
             return False
         if not (1e-12 <= err / abs(x) <= 1e12):
